@@ -180,6 +180,32 @@ theorem toBernstein_repr (a : List K) (s : K) : bernsteinEval (toBernstein a) s 
 
 end conversion
 
+section scaled_coefficients
+variable {K : Type} [Field K]
+
+theorem scaleArgAux_length (σ w : K) (p : List K) : (LP.scaleArgAux σ w p).length = p.length := by
+  induction p generalizing w with
+  | nil => rfl
+  | cons a p ih => simp [LP.scaleArgAux, ih]
+
+theorem scaleArgAux_getD (σ w : K) (p : List K) (j : Nat) : (LP.scaleArgAux σ w p).getD j 0 = p.getD j 0 * (w * σ ^ j) := by
+  induction p generalizing w j with
+  | nil => simp [LP.scaleArgAux]
+  | cons a p ih =>
+    cases j with
+    | zero => simp [LP.scaleArgAux]
+    | succ j => simp only [LP.scaleArgAux, List.getD_cons_succ, ih, pow_succ]; ring
+
+theorem scaleArg_length (σ : K) (p : List K) : (LP.scaleArg σ p).length = p.length := scaleArgAux_length σ _ p
+
+/-- coefficient `j` of `p(σ·s)` is `p_j σ^j` -/
+theorem scaleArg_getD (σ : K) (p : List K) (j : Nat) : (LP.scaleArg σ p).getD j 0 = p.getD j 0 * σ ^ j := by
+  unfold LP.scaleArg
+  rw [scaleArgAux_getD]
+  simp
+
+end scaled_coefficients
+
 section ordered
 variable {K : Type} [Field K] [LinearOrder K] [IsStrictOrderedRing K]
 
